@@ -593,9 +593,26 @@ class Model:
                               "%s.populate_class_members no longer installs %s" % (k, sorted(want - have))))
             # Choice gets the *group's* successors
             pm = m.classes["ZeroOrOneChoice"].methods["populate_class_members"]
-            okc = any(isinstance(n, ast.Call) and isinstance(n.func, ast.Attribute) and n.func.attr == "populate_class_members"
-                      and len(n.args) == 3 and dotted(n.args[2]) == "self._successors" for n in ast.walk(pm.node))
-            if not okc:
+            # whatever the signature: the argument bound to the parameter Choice.populate_class_members stores as its own
+            # `_successors` is the group's `self._successors`
+            cpm = m.classes["Choice"].methods.get("populate_class_members")
+            succ_param = None
+            for n in ast.walk(cpm.node) if cpm else []:
+                if isinstance(n, ast.Assign) and dotted(n.targets[0]) == "self._successors" and isinstance(n.value, ast.Name):
+                    succ_param = n.value.id
+            okc, seen_call = False, False
+            cps = ([a.arg for a in cpm.node.args.args][1:] if cpm else [])
+            for n in ast.walk(pm.node):
+                if isinstance(n, ast.Call) and isinstance(n.func, ast.Attribute) and n.func.attr == "populate_class_members" \
+                        and dotted(n.func.value) not in ("super()",) and not (isinstance(n.func.value, ast.Call)):
+                    seen_call = True
+                    bound = dict(zip(cps, n.args))
+                    bound.update({k.arg: k.value for k in n.keywords if k.arg})
+                    if succ_param is not None and succ_param in bound and dotted(bound[succ_param]) == "self._successors":
+                        okc = True
+            if succ_param is None or not seen_call:
+                self.mechanism_errors.append(("insert", "%s:%d how choice members receive their successors is not recognised" % (m.relpath, pm.line)))
+            elif not okc:
                 P.append(("violation", "%s:%d" % (m.relpath, pm.line),
                           "choice members are not given the group's successors"))
         with self._part('attr'):
